@@ -171,6 +171,22 @@ impl C09 {
     if e1 != e2 {
       out.fail(env, viol("compose", "lunar_hour_vs_instant_view", case, &k, tfmt(c, i, s), chars_name(&e1), chars_name(&e2)));
     }
+    // the lunar hour's own pillar accessors (deprecated since 1.3.0 but public) are one more route to the same four pillars
+    #[allow(deprecated)]
+    let r3 = guard(|| {
+      let lh = t.get_lunar_hour();
+      [lh.get_year_sixty_cycle().get_index() as i64, lh.get_month_sixty_cycle().get_index() as i64, lh.get_day_sixty_cycle().get_index() as i64, lh.get_sixty_cycle().get_index() as i64]
+    });
+    match r3 {
+      Ok(p3) => {
+        if p3 != pil {
+          out.fail(env, viol("compose", "lunar_hour_pillar_accessors_vs_instant_view", case, &k, tfmt(c, i, s), chars_name(&pil), chars_name(&p3)));
+        }
+      }
+      Err(e) => {
+        out.fail(env, viol("compose", "lunar_hour_pillar_accessors_panic", case, &k, tfmt(c, i, s), chars_name(&pil), e));
+      }
+    }
     if e1 != exp {
       if amb {
         out.skip("jie_instant_rounds_at_half_second");
